@@ -118,6 +118,15 @@ class C07Monitor(jobsim.Monitor):
         d = np.abs(x[c["dof0"]] - c["ext0"])
         if d.size and d.max() > 1e-14 * (1 + np.abs(c["ext0"]).max()):
             self.V("prescribed-exact", f"returned field differs from prescribed values by {d.max():.3e}", site="result.x")
+        exp = world.expected_prescribed(eng.w, c["step"])
+        if exp:
+            idx = np.fromiter(exp.keys(), dtype=int)
+            val = np.fromiter(exp.values(), dtype=float)
+            d = np.abs(x[idx] - val)
+            if d.max() > 1e-14 * (1 + np.abs(val).max()):
+                self.V("prescribed-exact", f"returned field differs from the boundary values by {d.max():.3e} at unknown {int(idx[d.argmax()])}", site="result.x-vs-boundaries")
+            if not set(idx.tolist()) <= set(c["dof0"].tolist()):
+                self.V("prescribed-exact", "an unknown selected by a boundary is not in the prescribed set", site="dof0")
         # independent equilibrium: cold fork, committed state of the substep start
         fk = world.fork(eng.w, durable=c["durable_start"], step_index=c["step"], substep=c["substep"])
         fk.set_values([f.values for f in res.x.fields])
